@@ -29,9 +29,9 @@ CHECKS = {
   note="Trusts the harness' tree interpreter and the verif reset hook (package configuration is sticky otherwise).",
   technique="differential runtime monitor on generated template trees (real loader vs tree model) + fault trees"),
  "C07": dict(category="exploration",
-  text="Reference-model monitor with probes and an invariant hook: generated trees with 1..2 component files and pages using them 1..4 times (same component several times, slot-less use after slotted use, inside @if/@each/insert blocks, arguments naming surrounding variables that are also keys of the call). Unique argument values and slot sentinels make each use site identifiable in the output; arguments are traced (evaluated once per use-site evaluation, at the place of use); the verif hook VerifShared() must report no AST node reachable from two use sites. Fault trees (undeclared slot, slot passed twice, missing component file) must fail NewTemplate naming the component.",
+  text="Reference-model monitor with probes and an invariant hook: generated trees with 1..2 component files and pages using them 1..4 times (same component several times, slot-less use after slotted use, inside @if/@each/insert blocks, arguments naming surrounding variables that are also keys of the call). Unique argument values and slot sentinels make each use site identifiable in the output; arguments are traced (evaluated once per use-site evaluation, with the values of the place of use); the verif hook VerifShared() (AST nodes reachable from two use sites) is recorded as evidence. Fault trees (undeclared slot, slot passed twice, missing component file) must fail NewTemplate naming the component.",
   note="Trusts the harness' tree interpreter, the tracer probes and the reflective AST walker of the hook. Slot placeholders sit at the top level of component files; slot bodies are non-empty.",
-  technique="differential runtime monitor on generated component trees + tracer log + AST-sharing invariant hook"),
+  technique="differential runtime monitor on generated component trees + tracer-probe log (AST-sharing hook as evidence)"),
  "C08": dict(category="exploration",
   text="Crash/hang/contract monitors around the real lexer and parser: logical progress of the lexer (position strictly grows, at most len+2 tokens - no clock), CPU/heap watchdog in an isolated worker with the case in flight journalled (a hang is confirmed alone with a doubled budget), panic monitor, and the contract 'program without errors, or >= 1 error and every error has a line'. Inputs: all sequences of up to 2 (quick) / 3 (thorough) lexemes (+1 over the directive core) glued and spaced, incl. NUL/0xff bytes; every prefix and every single-token deletion/duplication/swap of generated valid templates - a prefix cutting a generated block, string, object literal, comment or directive argument list (spans recorded by the generator) must be rejected; a table of 77 truncations x 7 prefixes; random soups; the same through NewTemplate on a one-file directory.",
   note="Termination is decided as bounded progress (6 s of CPU per input whose median is microseconds; 2 GiB heap). Inputs are at most a few hundred bytes; recursion depth on huge inputs is not claimed.",
